@@ -97,7 +97,7 @@ def cases(ctx, tier):
     # multiple of small primes; k next to the path boundary, next to n/2 and in between
     for _ in range(24 if quick else 300):
         p_ = rng.choice([q for q in range(1009, 1400) if is_prime(q)])
-        n = rng.choice([2 * p_, 2 * p_, 2 * p_ + 1, p_ * 2 - 1, 2048, 2187, 2310, rng.randrange(2002, 2800)])
+        n = rng.choice([2 * p_, 2 * p_, 2 * p_ + 1, p_ * 2 - 1, 2048, 2187, 2310, rng.randrange(2010, 2800)])
         for k in set([1001, n // 2 - 1, n // 2, rng.randrange(1001, n // 2), n - rng.randrange(1001, n // 2)]):
             out.append(('mpz_bin_uiui %x %x 0' % (n, k), 'bin_uiui-large-k'))
     for _ in range(200 if quick else 2000):
